@@ -2,6 +2,7 @@ mod core_mp;
 mod core_pp;
 mod crash;
 mod db;
+mod flock;
 mod image;
 mod iohook;
 mod util;
@@ -24,12 +25,14 @@ fn main() {
         "crash-child" => std::process::exit(crash::child(&args)),
         "dump" => std::process::exit(crash::dump(&args)),
         "churn-child" => std::process::exit(crash::churn_child(&args)),
+        "flock-child" => std::process::exit(flock::child(&args)),
         _ => {}
     }
     let mut sink = util::Sink::new();
     match cmd.as_str() {
         "crash" => crash::run(&args, &mut sink),
         "churn" => crash::churn(&args, &mut sink),
+        "flock" => flock::run(&args, &mut sink),
         "core-pp" => core_pp::run(seed, cases, &mut sink),
         "core-mp" => core_mp::run(seed, cases, &mut sink),
         "core-mp-corpus" => {
